@@ -62,7 +62,9 @@ class World:
         self.tmp_n = 0
         self.env_calls = 0         # counter of environment calls (crash points)
         self.fault_at = fault_at   # symbolic Int or None
+        self.fault_at2 = None      # optional second crash point (thorough tier)
         self.fault_site = None
+        self.fault_site2 = None
         self.streams = {}          # rng key -> list of draws
         self.global_random_touched = []
         self.sites = []
@@ -73,10 +75,17 @@ class World:
         self.env_calls += 1
         self.sites.append(site)
         if self.fault_at is not None:
-            if core.decide(self.fault_at == c):
-                self.fault_site = (c, site)
-                self.log.append(("fault", c, site))
-                raise InjectedFault("%s#%d" % (site, c))
+            if self.fault_site is None:
+                if core.decide(self.fault_at == c):
+                    self.fault_site = (c, site)
+                    self.log.append(("fault", c, site))
+                    raise InjectedFault("%s#%d" % (site, c))
+            elif getattr(self, "fault_at2", None) is not None and self.fault_site2 is None:
+                # a second fault, later in the same run (e.g. during the clean-up triggered by the first one)
+                if core.decide(self.fault_at2 == c):
+                    self.fault_site2 = (c, site)
+                    self.log.append(("fault", c, site))
+                    raise InjectedFault("%s#%d (second fault)" % (site, c))
 
     def event(self, *e):
         self.log.append(e)
